@@ -126,6 +126,11 @@ func (c *Ctx) err1() {
 		// C11 speaks about Subscribe, Unsubscribe and Ping only
 		only = set("(*Client).Subscribe", "(*Client).SubscribeLimitAtMostOnce", "(*Client).SubscribeLimitAtLeastOnce", "(*Client).Unsubscribe", "(*Client).Ping")
 	}
+	if c.S.Property == "C17" {
+		// C17 speaks about the methods that can refuse with ErrMax
+		only = set("(*Client).Subscribe", "(*Client).SubscribeLimitAtMostOnce", "(*Client).SubscribeLimitAtLeastOnce", "(*Client).Unsubscribe", "(*Client).Ping",
+			"(*Client).PublishAtLeastOnce", "(*Client).PublishAtLeastOnceRetained", "(*Client).PublishExactlyOnce", "(*Client).PublishExactlyOnceRetained")
+	}
 	for _, t := range table {
 		if len(only) > 0 && !only[t.name] {
 			continue
@@ -1173,6 +1178,39 @@ func (c *Ctx) err7() {
 			}
 		}
 		a.done(1, "every path with a failed write returns an error built from that failure")
+		// the converse for the four writers of the client: success means written —
+		// a closed, down or pending connection is an error to the caller, never nil
+		// (and for the request methods built on them: a request that reports success was submitted)
+		{
+			w := c.acc("ERR-7", fn, "nil⇒the-packet-was-written(nil-wire-result-on-the-path)")
+			for _, p := range c.Paths("ERR-7", fn) {
+				if p.End != pathx.KReturn || retErr(p, len(p.Events)-1) != triNil {
+					continue
+				}
+				last := len(p.Events) - 1
+				written := false
+				for i := range p.Events {
+					e := &p.Events[i]
+					if e.Kind != pathx.KCall || e.Callee == nil || !wire[e.Callee] {
+						continue
+					}
+					if isNil, known := nilResult(p, i, last); isNil && known {
+						written = true
+					}
+				}
+				if written {
+					w.pass()
+				} else {
+					w.fail(p, last, "%s reports success on a path without a wire write that returned nil: the caller takes a packet for sent that never left — the connection was closed, down or still pending, or no slot was free", name)
+				}
+			}
+			min := 0
+			switch name {
+			case "(*Client).write", "(*Client).writeNoWait", "(*Client).writeBuffers", "(*Client).writeBuffersNoWait", "(*Client).publish":
+				min = 1
+			}
+			w.done(min, "every nil return follows a nil result of writeTo/writeBuffersTo")
+		}
 	}
 	c.S.Floor("ERR-7", "failed-write paths of request methods", n, 8)
 }
